@@ -20,8 +20,8 @@ import (
 
 var ctx = context.Background()
 
-var Universe = []hs.Blob{hs.BA, hs.BSchema, hs.BChunk}
-var Names = []string{"a", "s", "k"}
+var Universe = []hs.Blob{hs.BA, hs.BSchema, hs.BChunk, hs.Mk("k2", hs.Det(11, 64<<10), "")}
+var Names = []string{"a", "s", "k", "k2"}
 
 type Op struct {
 	Kind int
@@ -42,6 +42,8 @@ var Programs = []Program{
 	{"recv-a;recv-s||enum", 0, [][]Op{{{lin.Recv, 1}, {lin.Recv, 2}}, {{lin.Enum, 0}}}, false},
 	{"fetch-a||fetch-s||remove-a", 3, [][]Op{{{lin.Fetch, 1}}, {{lin.Fetch, 2}}, {{lin.Remove, 1}}}, true},
 	{"recv-a;remove-a||stat-a;fetch-a", 0, [][]Op{{{lin.Recv, 1}, {lin.Remove, 1}}, {{lin.Stat, 1}, {lin.Fetch, 1}}}, true},
+	// a receive that rolls a size-limited pack over, racing with a receive into the new pack and a fetch of it
+	{"recv-k2||recv-a||fetch-a", 4, [][]Op{{{lin.Recv, 8}}, {{lin.Recv, 1}}, {{lin.Fetch, 1}}}, false},
 }
 
 func FirstBlob(mask uint32) hs.Blob {
